@@ -235,15 +235,20 @@ Proof.
   destruct (k_ext (gett w t)); [exact H|]. apply andb_true_iff in H. exact (proj1 H).
 Qed.
 
+(* all conjuncts of a boolean conjunction as separate hypotheses (independent of their number and order) *)
+Ltac wf_split :=
+  repeat match goal with X : _ && _ = true |- _ => apply andb_true_iff in X; destruct X end.
+
 Lemma wfin_children w t ch :
   WFin w -> k_ext (gett w t) = false -> In ch (k_children (gett w t)) ->
   (ch < length w)%nat /\ k_ext (gett w ch) = false.
 Proof.
   intros Hw Hext Hin. pose proof (wfin_at w t Hw (ext_out_of_range w t Hext)) as H. rewrite Hext in H.
-  unfold wfin_member_b in H. repeat (apply andb_true_iff in H; destruct H as [H _]).
-  rewrite forallb_forall in H. specialize (H ch Hin).
-  apply andb_true_iff in H. destruct H as [H _]. apply andb_true_iff in H. destruct H as [H1 H2].
-  unfold in_range in H1. apply Nat.ltb_lt in H1. unfold is_ext in H2. apply negb_true_iff in H2. auto.
+  unfold wfin_member_b in H. wf_split.
+  match goal with X : forallb _ (k_children (gett w t)) = true |- _ => rename X into Hc end.
+  rewrite forallb_forall in Hc. specialize (Hc ch Hin).
+  apply andb_true_iff in Hc. destruct Hc as [Hc _]. apply andb_true_iff in Hc. destruct Hc as [Hcr Hce].
+  unfold in_range in Hcr. apply Nat.ltb_lt in Hcr. unfold is_ext in Hce. apply negb_true_iff in Hce. auto.
 Qed.
 
 Lemma ancestors_none w f t : k_parent (gett w t) = None -> ancestors w f t = [].
